@@ -18,7 +18,7 @@ META = {
     'technique': 'reference-slicing monitor on the real frame parser under enumerated chunkings + fault enumeration of every truncation offset of a request stream against the real TCP server with state/liveness oracles',
     'text': 'Parser level: streams of 1..6 frames (payloads 0, 1, odd, even, up to 9 kB so a frame spans several recv blocks) are chunked in every two-way split exhaustively, byte-at-a-time, '
             'seeded k-way and all-in-one, and fed to the real enip_machine the way the server and the client do; every parsed header field, payload and the running sent count must equal reference '
-            'slicing (24 + declared length per frame). The cpppo client receive loop is driven by a harness server that segments a reply stream the same ways. Server level: a request stream '
+            'slicing (24 + declared length per frame). The cpppo client receive loop is driven by a harness server that segments a reply stream the same ways (replies, Register replies and NOP keep-alives, i.e. frames whose first byte is zero; also two frames coalesced per receive). Server level: a request stream '
             '(writes, reads, a bundle) is cut at truncation offsets (quick: every offset in the last write frame, every frame boundary +-1, header field boundaries and a seeded sample; thorough: '
             'every offset), delivered in a seeded chunking and followed by EOF. Replies must be exactly those of the frames wholly delivered, tag contents (in-process inspection and a '
             'long-lived second session) must equal the model applied to those frames only, a fresh session must work, and the connection table must return to its baseline.',
@@ -30,7 +30,7 @@ RULE = ('a case = one (stream, chunking) parsed, or one (stream, truncation offs
         'non-trivial = the stream has >= 2 frames or the cut falls inside a frame')
 ASSUMPTIONS = ['the server is given 3 s to close a connection after EOF (wall-clock only guards; exceeding it is inconclusive, not a violation)']
 REQUIRED = ['parser:streams', 'parser:two-way-splits', 'parser:bytewise', 'parser:k-way', 'parser:frame-spanning-recv-blocks', 'parser:zero-length-payload',
-            'client:streams', 'client:responses', 'trunc:trials', 'trunc:inside-header', 'trunc:inside-payload', 'trunc:on-frame-boundary', 'trunc:inside-write-frame',
+            'client:streams', 'client:responses', 'client:nop-frames', 'trunc:trials', 'trunc:inside-header', 'trunc:inside-payload', 'trunc:on-frame-boundary', 'trunc:inside-write-frame',
             'trunc:register-frame', 'monitor:state-equals-complete-frames-only', 'monitor:second-session-alive', 'monitor:fresh-session', 'monitor:connection-table-baseline',
             'monitor:reply-count']
 TIMEOUT = {'quick': 300, 'thorough': 2400}
@@ -157,9 +157,15 @@ def client_level(ctx, rng, rounds):
         sess = rng.randrange(1, 2**32)
         for k in range(rng.choice([1, 2, 3, 5])):
             c = struct.pack('<Q', rng.getrandbits(64))
-            if rng.random() < 0.3:
+            r = rng.random()
+            if r < 0.25:
                 frames.append(rc.enc_frame(0x65, struct.pack('<HH', 1, 0), session=sess, context=c))
                 wants.append((0x65, c, None))
+            elif r < 0.5:
+                # NOP (command 0x0000, the keep-alive either end may send): a frame whose first byte is zero
+                frames.append(rc.enc_frame(0x0000, b'', session=sess, context=c))
+                wants.append((0x0000, c, None))
+                ctx.count('client:nop-frames')
             else:
                 n = rng.choice([1, 2, 50, 120])
                 vals = [rng.randrange(-2**31, 2**31) for _ in range(n)]
@@ -167,8 +173,11 @@ def client_level(ctx, rng, rounds):
                 frames.append(rc.rr_frame(cip, sess, c))
                 wants.append((0x6F, c, vals))
         stream = b''.join(frames)
-        mode = rng.choice(['bytewise', 'two-way', 'k-way', 'whole'])
-        if mode == 'bytewise':
+        mode = rng.choice(['bytewise', 'two-way', 'k-way', 'whole', 'whole', 'frame-pairs'])
+        if mode == 'frame-pairs':
+            # receive boundaries on frame boundaries, two frames coalesced per chunk
+            chunks = [b''.join(frames[i:i + 2]) for i in range(0, len(frames), 2)]
+        elif mode == 'bytewise':
             chunks = [stream[i:i + 1] for i in range(len(stream))]
         elif mode == 'two-way':
             cut = rng.randrange(1, len(stream))
@@ -450,7 +459,7 @@ def run(ctx):
     rng = ctx.rng
     soft = SOFT[ctx.tier]
     parser_level(ctx, rng, soft * 0.25)
-    client_level(ctx, rng, 12 if ctx.tier == 'quick' else 400)
+    client_level(ctx, rng, 30 if ctx.tier == 'quick' else 600)
     server_level(ctx, rng)
 
 
